@@ -169,4 +169,7 @@ def check(run, prog):
             ck.same("R1", f_snip.where, f"snippet: {label}", "a boundary request inside [0, len] is accepted", False, found=str(e)[:160])
         except Unsupported as e:
             ck.unk("R1", f_snip.where, f"snippet: {label}", "a boundary request inside [0, len] is accepted", str(e))
+    # the FFT routines work on (views of) the caller's data: they must never be given permission to overwrite their operand
+    from ..structural import overwrite_report
+    overwrite_report(ck, prog, "R1")
     run.extra["decided_by"] = ck.how
